@@ -169,12 +169,13 @@ CHECKS = {
         text="Lean theorems on the header map (get_after_set under any letter case, one_entry_per_name, name_case_insensitive) and on the Date "
              "arithmetic: date_roundtrip (toSecs (civil t) = t for every instant, no upper bound: 400-year cycle argument over a model that "
              "transcribes httpdate's two conversions), date_injective, date_fields_in_range (month, day of month, weekday), date_time_of_day. "
-             "The mailbox grammar round trip (display, then the chumsky grammar transcribed as a PEG, then Address::new) is proved for the address: "
-             "mailbox_address_roundtrip and mailbox_list_roundtrip (for every mailbox / non-empty list whose addresses are dot-atom@dot-atom and "
-             "EVERY display name - quotes, commas, angle brackets, CR, LF, NUL included - Display does not fail and FromStr returns the same "
-             "addresses in the same order), display_name_is_one_phrase, address_class_sound (Proofs/Peg.lean: ~1000 lines over the combinators). "
-             "Partial: that the NAME read back equals the stored name, and addresses with a quoted local part or a domain literal, are not "
-             "proved; the check reports per real mailbox whether it is in the proved class (evidence ok_notes cls=proved / cls=checked-only). "
+             "The mailbox grammar round trip (display, then the chumsky grammar transcribed as a PEG, then Address::new) is proved: "
+             "mailbox_roundtrip and mailbox_list_roundtrip (for every mailbox / non-empty list whose addresses are dot-atom@dot-atom and "
+             "EVERY display name - quotes, commas, angle brackets, CR, LF, NUL included - Display does not fail and FromStr returns equal "
+             "mailboxes in the same order: the same address, and a name equal up to normName), display_name_is_one_phrase (the grammar returns "
+             "the name with runs of blanks reduced to their first), address_class_sound (Proofs/Peg.lean: ~1200 lines over the combinators). "
+             "Partial: addresses with a quoted local part or a domain literal are outside the proved class; the check reports per real mailbox "
+             "whether it is in the class (evidence ok_notes cls=proved / cls=checked-only). "
              "All of it is tied by the correspondence check: the "
              "Display model, the PEG model (grammar observed through a hook, on valid and malformed texts), the date model (first and last "
              "second of every month 1970..9999; every day in thorough) each agree with the code, and the property itself (display -> parse, "
@@ -183,7 +184,7 @@ CHECKS = {
         design_ref="DESIGN.md 5 C17",
         note="Trusted: Lean kernel; axioms propext/Quot.sound/Classical.choice; Spec/StructuredDec.lean; the mime crate (A4); model + harness. Three "
              "defects fixed in /repo (CR/LF/NUL names, quoted local parts, address literals).",
-        technique="Lean 4 proof (header map; date arithmetic round trip for all instants; PEG grammar o Display preserves dot-atom addresses under every name) + model-vs-code correspondence of display, PEG grammar and date arithmetic with property oracles"),
+        technique="Lean 4 proof (header map; date arithmetic round trip for all instants; PEG grammar o Display = identity up to name normalisation, for dot-atom addresses under every name) + model-vs-code correspondence of display, PEG grammar and date arithmetic with property oracles"),
     "C01": dict(
         category="proof",
         text="Lean theorems: builder_refines_spec (for every sequence of builder calls the code's text store - re-parse, join, re-display "
